@@ -61,7 +61,11 @@ func VerifC07Merge() {
 	}
 	var in ast.Schemas
 	for i := 0; i < n; i++ {
-		in = append(in, c07Schema(v.Str("pkg", "p", "q"), 2))
+		objs := 2
+		if i == 2 {
+			objs = 1 // thorough: the third schema holds one object (three full schemas do not complete)
+		}
+		in = append(in, c07Schema(v.Str("pkg", "p", "q"), objs))
 	}
 	v.Observe(in)
 	ins := c07All(in)
